@@ -2,7 +2,7 @@
    packed files; the four error cases; the reader depends on observations only. *)
 From Coq Require Import List NArith ZArith Bool Lia ZifyBool ZifyNat ZifyN Permutation.
 From Mila Require Import Lib.Bytes Lib.Machine Model.BinArchive Model.BinStreams Model.BinFormat Model.Arc
-  Proofs.AMapLemmas Proofs.BinAccess Proofs.BinAccess2 Proofs.ObsEqual.
+  Proofs.AMapLemmas Proofs.BinAccess Proofs.BinAccess2 Proofs.FindLabel Proofs.ObsEqual.
 Import ListNotations.
 Local Open Scope N_scope.
 Ltac Zify.zify_post_hook ::= Z.div_mod_to_equations.
@@ -30,13 +30,17 @@ Definition table_from (a : archive) (info pad : N) (i : nat) (recs : list arc_en
   forall j en, nth_error recs j = Some en -> record_is a info pad (i + j) en.
 
 (* entry [en] is the file (name, body): the recorded size is the body's length and the body is the
-   recorded range of the data region *)
+   recorded range of the data region.  An EMPTY range (size 0) holds the empty body wherever its address points - also
+   beyond the data region: the code seeks there and reads zero bytes (no byte is looked at) *)
 Definition holds_file (a : archive) (en : arc_entry) (f : bytes * bytes) : Prop :=
-  ae_name en = fst f /\ ae_size en = lenN (snd f) /\ sliceN (ae_address en) (lenN (snd f)) (a_data a) = Some (snd f).
+  ae_name en = fst f /\ ae_size en = lenN (snd f) /\
+  (sliceN (ae_address en) (lenN (snd f)) (a_data a) = Some (snd f) \/ snd f = []).
 
 Definition arc_layout (a : archive) (files : list (bytes * bytes)) : Prop :=
   exists c i w0 recs,
-    label_addrs a COUNT = [c] /\ label_addrs a INFO = [i] /\      (* each label on exactly one address *)
+    (* c / i = the LOWEST address carrying the label Count / Info (find_label_address of the repaired code 10408e9;
+       Proofs/FindLabel.v: find_label_address_spec); with the label on exactly one address, that address *)
+    find_label_address a COUNT = Some c /\ find_label_address a INFO = Some i /\
     read_u32 a 0 = Ok w0 /\                                       (* pad = 0x60 iff the first word is 0 *)
     read_u32 a c = Ok (lenL files) /\
     table_from a i (arc_pad w0) 0 recs /\
@@ -146,7 +150,10 @@ Lemma body_loop_files a : forall recs files acc,
 Proof.
   induction recs as [|en recs IH]; intros files acc H; inversion H as [|x y xs ys Hh Hr]; subst; cbn [body_loop].
   - rewrite app_nil_r. reflexivity.
-  - destruct Hh as (Hn & Hs & Hb). rewrite Hs, (read_body_ok a _ _ _ Hb).
+  - destruct Hh as (Hn & Hs & Hb).
+    assert (Hr' : fst (r_read_bytes a (ae_address en) (ae_size en)) = Ok (snd y)).
+    { rewrite Hs. destruct Hb as [Hb|Hb]; [apply read_body_ok; exact Hb | rewrite Hb; apply read_body_empty]. }
+    rewrite Hr'.
     rewrite (IH ys ((ae_name en, snd y) :: acc) Hr). cbn [rev]. rewrite <- app_assoc. cbn [app].
     rewrite Hn. destruct y; reflexivity.
 Qed.
@@ -194,16 +201,13 @@ Proof.
 Qed.
 
 (* ---------------------------------------------------------------- extraction *)
-Lemma find_of_addrs a l x : label_addrs a l = [x] -> find_label_address a l = Some x.
-Proof. intros H. rewrite find_label_address_addrs, H. reflexivity. Qed.
-
 Lemma Forall2_length {A B} (R : A -> B -> Prop) l l' : Forall2 R l l' -> length l = length l'.
 Proof. induction 1; cbn; congruence. Qed.
 
 Theorem arc_trace_layout m a files : arc_layout a files -> arc_trace m a = Ok files.
 Proof.
   intros (c & i & w0 & recs & Hc & Hi & Hw & Hn & Ht & Hf & Hnd). unfold arc_trace.
-  rewrite (find_of_addrs a COUNT c Hc), (find_of_addrs a INFO i Hi). cbn [of_option bind].
+  rewrite Hc, Hi. cbn [of_option bind].
   rewrite Hw. cbn [bind]. unfold r_read_u32. rewrite fst_rd, Hn. cbn [bind].
   assert (Hl : lenL files = lenL recs) by (unfold lenL; rewrite (Forall2_length _ _ _ Hf); reflexivity).
   rewrite Hl. fold (arc_pad w0).
@@ -237,15 +241,6 @@ Theorem arc_from_bytes_extract m f a files :
 Proof. intros Hp Hl. unfold arc_from_bytes. rewrite Hp. cbn [bind]. apply arc_extract. exact Hl. Qed.
 
 (* the relation does not depend on the (hash) order of the label map *)
-Lemma label_addrs_perm a a' l : Permutation (a_labels a) (a_labels a') -> Permutation (label_addrs a l) (label_addrs a' l).
-Proof.
-  intros P. unfold label_addrs. apply Permutation_map.
-  induction P as [|x l1 l2 P IH|x y l1|l1 l2 l3 P1 IH1 P2 IH2]; cbn [filter].
-  - constructor.
-  - destruct (existsb _ (snd x)); [constructor|]; exact IH.
-  - destruct (existsb _ (snd x)); destruct (existsb _ (snd y)); try apply Permutation_refl. apply perm_swap.
-  - eapply Permutation_trans; eassumption.
-Qed.
 Theorem arc_layout_any_hash_order a a' files :
   a_data a' = a_data a -> a_text a' = a_text a -> a_endian a' = a_endian a -> Permutation (a_labels a) (a_labels a') ->
   arc_layout a files -> arc_layout a' files.
@@ -255,18 +250,22 @@ Proof.
   assert (S : forall x, read_string a' x = read_string a x).
   { intros x. unfold read_string, check_cell, size. rewrite Hd, Ht. reflexivity. }
   exists c, i, w0, recs. repeat split.
-  - pose proof (label_addrs_perm a a' COUNT P) as Q. rewrite Hc in Q. apply Permutation_length_1_inv in Q. exact Q.
-  - pose proof (label_addrs_perm a a' INFO P) as Q. rewrite Hi in Q. apply Permutation_length_1_inv in Q. exact Q.
+  - rewrite <- (find_label_address_perm a a' COUNT P). exact Hc.
+  - rewrite <- (find_label_address_perm a a' INFO P). exact Hi.
   - rewrite U. exact Hw.
   - rewrite U. exact Hn.
   - intros j en Hj. destruct (Htab j en Hj) as (off & H1 & H2 & H3 & H4 & H5 & H6). exists off. rewrite S, !U. repeat split; assumption.
-  - clear - Hf Hd. induction Hf as [|x y xs ys (H1 & H2 & H3) Hr IH]; constructor; [|exact IH]. repeat split; try assumption. rewrite Hd. exact H3.
+  - clear - Hf Hd. induction Hf as [|x y xs ys (H1 & H2 & H3) Hr IH]; constructor; [|exact IH]. split; [exact H1|]. split; [exact H2|]. rewrite Hd. exact H3.
   - exact Hnd.
 Qed.
 
 (* ---------------------------------------------------------------- the four errors *)
 Theorem arc_no_count m a : label_addrs a COUNT = [] -> arc_from_archive m a = Err ENoCount.
 Proof. intros H. unfold arc_from_archive, arc_trace. rewrite find_label_address_addrs, H. reflexivity. Qed.
+Theorem arc_no_count' m a : find_label_address a COUNT = None -> arc_from_archive m a = Err ENoCount.
+Proof. intros H. unfold arc_from_archive, arc_trace. rewrite H. reflexivity. Qed.
+Theorem arc_no_info' m a c : find_label_address a COUNT = Some c -> find_label_address a INFO = None -> arc_from_archive m a = Err ENoInfo.
+Proof. intros Hc Hi. unfold arc_from_archive, arc_trace. rewrite Hc, Hi. reflexivity. Qed.
 
 Theorem arc_no_info m a : label_addrs a COUNT <> [] -> label_addrs a INFO = [] -> arc_from_archive m a = Err ENoInfo.
 Proof.
@@ -367,12 +366,14 @@ Section Congr.
     rewrite (r_read_bytes_congr a a' _ _ Hd). destruct (fst (r_read_bytes a (ae_address en) (ae_size en))); [apply IH | reflexivity | reflexivity].
   Qed.
 
-  (* with each of the two labels on exactly one address the whole extraction is determined by observations *)
-  Theorem arc_trace_congr m c i : label_addrs a COUNT = [c] -> label_addrs a INFO = [i] -> arc_trace m a' = arc_trace m a.
+  (* the whole extraction is determined by observations (since the repair 10408e9 also when Count or Info sits on
+     several addresses: the lookup is a function of the label map) *)
+  Theorem arc_trace_congr m : arc_trace m a' = arc_trace m a.
   Proof.
-    intros Hc Hi. unfold arc_trace.
-    rewrite (oe_find a a' Ho COUNT c Hc), (oe_find a a' Ho INFO i Hi), (find_of_addrs a COUNT c Hc), (find_of_addrs a INFO i Hi).
-    cbn [of_option bind]. unfold read_u32, r_read_u32, read_u32. rewrite !(read_uint_congr a a' _ 4 Hd He).
+    unfold arc_trace. rewrite !(oe_find a a' Ho).
+    destruct (find_label_address a COUNT) as [c|]; cbn [of_option bind]; [|reflexivity].
+    destruct (find_label_address a INFO) as [i|]; cbn [of_option bind]; [|reflexivity].
+    unfold read_u32, r_read_u32, read_u32. rewrite !(read_uint_congr a a' _ 4 Hd He).
     destruct (read_uint a 0 4) as [w0|e|k]; cbn [bind]; try reflexivity.
     rewrite !fst_rd. destruct (read_uint a c 4) as [n|e|k]; cbn [bind]; try reflexivity.
     unfold data_fuel. rewrite Hd. rewrite entry_loop_congr.
@@ -380,7 +381,48 @@ Section Congr.
   Qed.
 End Congr.
 
-Theorem arc_from_archive_obs_equal m a a' c i :
-  obs_equal a a' -> a_endian a' = a_endian a -> label_addrs a COUNT = [c] -> label_addrs a INFO = [i] ->
-  arc_from_archive m a' = arc_from_archive m a.
-Proof. intros Ho He Hc Hi. unfold arc_from_archive. rewrite (arc_trace_congr a a' Ho He m c i Hc Hi). reflexivity. Qed.
+Theorem arc_from_archive_obs_equal m a a' :
+  obs_equal a a' -> a_endian a' = a_endian a -> arc_from_archive m a' = arc_from_archive m a.
+Proof. intros Ho He. unfold arc_from_archive. rewrite (arc_trace_congr a a' Ho He m). reflexivity. Qed.
+
+(* ---------------------------------------------------------------- the label on several addresses *)
+(* the unique-address reading of the layout is an instance *)
+Lemma find_of_addrs a l x : label_addrs a l = [x] -> find_label_address a l = Some x.
+Proof. intros H. rewrite find_label_address_addrs, H. reflexivity. Qed.
+Theorem arc_layout_unique a files c i w0 recs :
+  label_addrs a COUNT = [c] -> label_addrs a INFO = [i] -> read_u32 a 0 = Ok w0 -> read_u32 a c = Ok (lenL files) ->
+  table_from a i (arc_pad w0) 0 recs -> Forall2 (holds_file a) recs files -> NoDup (map fst files) -> arc_layout a files.
+Proof. intros Hc Hi. exists c, i, w0, recs. repeat split; try assumption; apply find_of_addrs; assumption. Qed.
+(* what the lookup means: the lowest of the addresses whose bucket contains the label *)
+Theorem find_label_lowest a l c : find_label_address a l = Some c <->
+  In c (label_addrs a l) /\ forall y, In y (label_addrs a l) -> c <= y.
+Proof. exact (find_label_address_spec a l c). Qed.
+
+(* ---------------------------------------------------------------- "a record whose range leaves the data region is an error" *)
+Lemma first_such (P : arc_entry -> bool) : forall l, existsb P l = true ->
+  exists pre en post, l = pre ++ en :: post /\ P en = true /\ forall e, In e pre -> P e = false.
+Proof.
+  induction l as [|x r IH]; cbn [existsb]; [discriminate|]. destruct (P x) eqn:Px.
+  - intros _. exists [], x, r. repeat split; [exact Px | intros e []].
+  - cbn [orb]. intros H. destruct (IH H) as (pre & en & post & -> & Hen & Hpre).
+    exists (x :: pre), en, post. repeat split; [exact Hen|]. intros e [<-|He]; [exact Px | apply Hpre; exact He].
+Qed.
+(* the general sentence: the table is fully readable, the count is the number of its records, and SOME record has a
+   non-empty range that ends beyond the data region - the extraction fails with OutOfBounds (at the first such record) *)
+Theorem arc_any_range_outside m a c i w0 recs en :
+  find_label_address a COUNT = Some c -> find_label_address a INFO = Some i ->
+  read_u32 a 0 = Ok w0 -> read_u32 a c = Ok (lenL recs) ->
+  table_from a i (arc_pad w0) 0 recs ->
+  In en recs -> 1 <= ae_size en -> size a < ae_address en + ae_size en ->
+  arc_from_archive m a = Err EOob.
+Proof.
+  intros Hc Hi Hw Hn Ht Hin H1 H2.
+  set (bad := fun e : arc_entry => andb (1 <=? ae_size e) (size a <? ae_address e + ae_size e)).
+  assert (Hex : existsb bad recs = true).
+  { apply existsb_exists. exists en. split; [exact Hin|]. unfold bad. apply andb_true_iff. split; [apply N.leb_le | apply N.ltb_lt]; assumption. }
+  destruct (first_such bad recs Hex) as (pre & en' & post & E & Hbad & Hpre). subst recs.
+  unfold bad in Hbad. apply andb_true_iff in Hbad. destruct Hbad as [B1 B2]. apply N.leb_le in B1. apply N.ltb_lt in B2.
+  apply (arc_range_outside m a c i w0 pre en' post Hc Hi Hw Hn Ht); [|exact B1 | exact B2].
+  intros e He. specialize (Hpre e He). unfold bad in Hpre. apply andb_false_iff in Hpre.
+  destruct Hpre as [F|F]; [apply N.leb_gt in F; left; lia | apply N.ltb_ge in F; right; exact F].
+Qed.
